@@ -32,7 +32,8 @@ impl Prop for C03 {
         v
     }
     fn strategy(&self, tier: Tier) -> BoxedStrategy<HistCase> {
-        gen::hist(tier.pick(24, 60), &[1, 1, 1, 2])
+        use proptest::prelude::*;
+        prop_oneof![60 => gen::hist(tier.pick(24, 60), &[1, 1, 1, 2]), 1 => gen::hist_big(&[1, 1, 2])].boxed()
     }
     fn extra_evidence(&self, root: &std::path::Path) -> serde_json::Value {
         crate::engine::fuzz_stats(root, "graph_history")
